@@ -79,6 +79,21 @@ func (fc *FnCtx) callMods(c *ssa.CallCommon) map[string]bool {
 	}
 	switch f := c.Value.(type) {
 	case *ssa.Function:
+		if con := fc.e.contractFor(f); con != nil && len(con.Writes) > 0 {
+			for _, w := range con.Writes {
+				for pi, p := range f.Params {
+					if p.Name() == w && pi < len(c.Args) {
+						if sl, ok := c.Args[pi].Type().Underlying().(*types.Slice); ok {
+							addTypeHeaps("A."+typeName(sl.Elem()), sl.Elem(), mods)
+						}
+					}
+				}
+			}
+			for _, h := range con.Modifies {
+				mods[h] = true
+			}
+			return mods
+		}
 		return fc.e.modset(f)
 	case *ssa.MakeClosure:
 		return fc.e.modset(f.Fn.(*ssa.Function))
